@@ -332,7 +332,9 @@ def image_job(jid, r):
             pre.append(text + suffix)                       # where the name lands as coded (if that place exists)
             pre.append(fsdoc.sanitised(text) + suffix)      # where a confined implementation would put it
         j["prefiles"] = pre
-    return {"id": jid, "dirs": fsdoc.TREE_DIRS, "files": [[p, "pickle"] for p in fsdoc.TREE_PICKLES], "images": True, "finalise": fin}
+    # (the decoy pickles matter at the CMap sites only; two are kept so that an overwrite / removal outside out would show)
+    return {"id": jid, "dirs": fsdoc.TREE_DIRS, "files": [["dec/evil.pickle.gz", "pickle"], ["out_evil/evil.pickle.gz", "pickle"]],
+            "images": True, "finalise": fin}
 
 
 def judge_image(ck, r, res):
